@@ -3,6 +3,7 @@
 package cl
 
 import (
+	"math"
 	"math/big"
 
 	"github.com/ohler55/slip"
@@ -46,7 +47,14 @@ func (f *Multiply) Call(s *slip.Scope, args slip.List, depth int) (product slip.
 		arg, product = slip.NormalizeNumber(arg, product)
 		switch ta := arg.(type) {
 		case slip.Fixnum:
-			product = ta * product.(slip.Fixnum)
+			tp := product.(slip.Fixnum)
+			if p := ta * tp; ta != 0 && (p/ta != tp || (ta == -1 && tp == math.MinInt64)) {
+				// The product is not a fixnum.
+				var z big.Int
+				product = (*slip.Bignum)(z.Mul(big.NewInt(int64(ta)), big.NewInt(int64(tp))))
+			} else {
+				product = p
+			}
 		case slip.SingleFloat:
 			product = ta * product.(slip.SingleFloat)
 		case slip.DoubleFloat:
